@@ -123,7 +123,7 @@ theorem sameKey_false_iff (a b : Pep α) : sameKey a b = false ↔ keyOf a ≠ k
 
 omit [BEq α] [LawfulBEq α] in
 theorem absorbAll_spec (k : Pep α) (rs : List (Pep α)) :
-    keyOf (absorbAll k rs) = keyOf k ∧ (absorbAll k rs).mc = k.mc ∧
+    keyOf (absorbAll k rs) = keyOf k ∧
     (absorbAll k rs).decoy = (k.decoy && rs.all (·.decoy)) ∧
     (absorbAll k rs).proteins = k.proteins ++ rs.flatMap (·.proteins) := by
   induction rs generalizing k with
@@ -131,10 +131,34 @@ theorem absorbAll_spec (k : Pep α) (rs : List (Pep α)) :
   | cons r rs ih =>
     have := ih (absorb k r)
     simp only [absorbAll, List.foldl_cons] at this ⊢
-    obtain ⟨h1, h2, h3, h4⟩ := this
-    refine ⟨by rw [h1]; rfl, by rw [h2]; rfl, ?_, ?_⟩
+    obtain ⟨h1, h3, h4⟩ := this
+    refine ⟨by rw [h1]; rfl, ?_, ?_⟩
     · rw [h3]; simp [absorb, Bool.and_assoc]
     · rw [h4]; simp [absorb]
+
+omit [BEq α] [LawfulBEq α] in
+/-- the missed-cleavage count of a merged class is the minimum over the class -/
+theorem absorbAll_mc (k : Pep α) (rs : List (Pep α)) :
+    ((absorbAll k rs).mc = k.mc ∨ ∃ r ∈ rs, (absorbAll k rs).mc = r.mc) ∧
+    (absorbAll k rs).mc ≤ k.mc ∧ ∀ r ∈ rs, (absorbAll k rs).mc ≤ r.mc := by
+  induction rs generalizing k with
+  | nil => simp [absorbAll]
+  | cons r rs ih =>
+    obtain ⟨h1, h2, h3⟩ := ih (absorb k r)
+    have hm : (absorb k r).mc = min k.mc r.mc := rfl
+    have hfold : absorbAll k (r :: rs) = absorbAll (absorb k r) rs := rfl
+    rw [hfold]
+    rw [hm] at h1 h2
+    refine ⟨?_, by omega, ?_⟩
+    · rcases h1 with h | ⟨r', hr', h⟩
+      · rcases Nat.le_total k.mc r.mc with hle | hle
+        · left; rw [h]; exact Nat.min_eq_left hle
+        · right; exact ⟨r, by simp, by rw [h]; exact Nat.min_eq_right hle⟩
+      · right; exact ⟨r', List.mem_cons_of_mem _ hr', h⟩
+    · intro r' hr'
+      rcases List.mem_cons.mp hr' with rfl | hr'
+      · omega
+      · exact h3 r' hr'
 
 /-- what `reorder_peptides` leaves of a list of forms: for every entry `e` there is a source with
     its key whose bookkeeping fields it keeps; `e` is a decoy iff every source with its key is; its
@@ -154,8 +178,14 @@ theorem mem_mergeFuel (n : Nat) (l : List (Pep α)) (hn : l.length ≤ n) (e : P
     | cons p rest =>
       simp only [mergeFuel, List.mem_cons] at he
       rcases he with rfl | he
-      · obtain ⟨h1, h2, h3, h4⟩ := absorbAll_spec p (rest.filter fun q => sameKey q p)
-        refine ⟨⟨p, by simp, h1, h2⟩, ?_, ?_⟩
+      · obtain ⟨h1, h3, h4⟩ := absorbAll_spec p (rest.filter fun q => sameKey q p)
+        have hsrc : ∃ s0 ∈ p :: rest, keyOf (absorbAll p (rest.filter fun q => sameKey q p)) = keyOf s0 ∧
+            (absorbAll p (rest.filter fun q => sameKey q p)).mc = s0.mc := by
+          rcases (absorbAll_mc p (rest.filter fun q => sameKey q p)).1 with h2 | ⟨r, hr, h2⟩
+          · exact ⟨p, by simp, h1, h2⟩
+          · simp only [List.mem_filter, sameKey_iff] at hr
+            exact ⟨r, List.mem_cons_of_mem _ hr.1, by rw [h1, hr.2], h2⟩
+        refine ⟨hsrc, ?_, ?_⟩
         · rw [h3, h1]
           simp only [Bool.and_eq_true, List.all_eq_true, List.mem_filter, sameKey_iff, List.mem_cons]
           constructor
@@ -225,6 +255,39 @@ theorem mergeFuel_complete (n : Nat) (l : List (Pep α)) (hn : l.length ≤ n) (
           simp at hn; omega
         obtain ⟨e, he, hke⟩ := ih _ hlen hs'
         exact ⟨e, Or.inr he, hke⟩
+
+/-- the missed-cleavage count of an entry is at most that of every form with its key (with
+    `mem_mergeFuel`: it is the minimum over them) -/
+theorem mergeFuel_mc_le (n : Nat) (l : List (Pep α)) (hn : l.length ≤ n) (e : Pep α) (he : e ∈ mergeFuel n l) :
+    ∀ s ∈ l, keyOf s = keyOf e → e.mc ≤ s.mc := by
+  induction n generalizing l with
+  | zero =>
+    cases l with
+    | nil => simp [mergeFuel] at he
+    | cons _ _ => simp at hn
+  | succ n ih =>
+    cases l with
+    | nil => simp [mergeFuel] at he
+    | cons p rest =>
+      simp only [mergeFuel, List.mem_cons] at he
+      rcases he with rfl | he
+      · obtain ⟨h1, _, _⟩ := absorbAll_spec p (rest.filter fun q => sameKey q p)
+        obtain ⟨_, h2, h3⟩ := absorbAll_mc p (rest.filter fun q => sameKey q p)
+        intro s hs hk
+        rcases List.mem_cons.mp hs with rfl | hs
+        · exact h2
+        · exact h3 s (by simp only [List.mem_filter, sameKey_iff]; exact ⟨hs, by rw [hk, h1]⟩)
+      · have hlen : (rest.filter fun q => !sameKey q p).length ≤ n := by
+          have := List.length_filter_le (fun q => !sameKey q p) rest
+          simp at hn; omega
+        obtain ⟨⟨s0, hs0, hk0, _⟩, _, _⟩ := mem_mergeFuel n _ hlen e he
+        simp only [List.mem_filter, Bool.not_eq_true', sameKey_false_iff] at hs0
+        intro s hs hk
+        rcases List.mem_cons.mp hs with rfl | hs
+        · exact absurd (by rw [hk, hk0]) hs0.2
+        · exact ih _ hlen he s (by
+            simp only [List.mem_filter, Bool.not_eq_true', sameKey_false_iff]
+            exact ⟨hs, by rw [hk, hk0]; exact hs0.2⟩) hk
 
 /-- no two entries of the merged list have the same key -/
 theorem mergeFuel_pairwise (n : Nat) (l : List (Pep α)) (hn : l.length ≤ n) :
